@@ -148,3 +148,69 @@ func H_C04_perm() {
 	}
 	cover("perm-done")
 }
+
+// H_C04_late: an acknowledgement issued after a rebalance moved the assigned
+// range is ignored when its vBucket is outside the new range, and creates no
+// checkpoint entry for it.
+func H_C04_late() {
+	fc := &vfakeConsumer{}
+	s := vNewStream(fc, vNewFakeMetadata())
+	s.vbIDRange = &models.VbIDRange{Start: 0, End: 511}
+	vb := nondetU16("vb")
+	assume(vb <= 511)
+	s.offsets.Store(vb, vOffset("resume"))
+	ev := vOffset("ev")
+	s.listen(models.ListenerArgs{Event: models.DcpMutation{DcpMutation: vMutation(vb, ev.SeqNo, []byte("k")), Offset: ev}})
+	// rebalance: the stream is closed (fresh maps) and reopened on a new range
+	a, b := nondetU16("new.a"), nondetU16("new.b")
+	s.offsets = newOffsetsMap()
+	s.dirtyOffsets = newDirtyMap()
+	s.anyDirtyOffset = false
+	s.vbIDRange = &models.VbIDRange{Start: a, End: b}
+	tracked := len(fc.tracked)
+	fc.consumed[0].Ack() // the consumer acknowledges the old event only now
+	inNew := vb >= a && vb <= b
+	if !inNew {
+		cover("outside-new-range")
+		assert(s.offsets.Count() == 0 && s.dirtyOffsets.Count() == 0, "no checkpoint is created for a vBucket the member no longer owns")
+		assert(len(fc.tracked) == tracked, "the offset tracker is not told")
+	} else {
+		cover("inside-new-range")
+		cur, ok := s.offsets.Load(vb)
+		assert(ok && cur == ev, "still owned: the acknowledgement counts")
+	}
+}
+
+// H_C04_par: two goroutines acknowledge concurrently on different vBuckets;
+// every interleaving at map operations and at the save-flag store.
+func H_C04_par() {
+	sharedFields("anyDirtyOffset")
+	fc := &vfakeConsumer{}
+	s := vNewStream(fc, vNewFakeMetadata())
+	var ev [2]*models.Offset
+	for vb := 0; vb < 2; vb++ {
+		r := vOffset("resume")
+		s.offsets.Store(uint16(vb), r)
+		ev[vb] = vOffset("ev")
+		assume(ev[vb].SeqNo >= r.SeqNo)
+		s.listen(models.ListenerArgs{Event: models.DcpMutation{DcpMutation: vMutation(uint16(vb), ev[vb].SeqNo, []byte("k")), Offset: ev[vb]}})
+	}
+	done := 0
+	for vb := 0; vb < 2; vb++ {
+		ctx := fc.consumed[vb]
+		spawnEnv(func() {
+			ctx.Ack()
+			done++
+		})
+	}
+	quiesce()
+	assert(done == 2, "both acknowledgements completed")
+	for vb := 0; vb < 2; vb++ {
+		cur, ok := s.offsets.Load(uint16(vb))
+		assert(ok && cur == ev[vb], "each vBucket ends at its own acknowledged position, as if acknowledged alone")
+		d, dok := s.dirtyOffsets.Load(uint16(vb))
+		assert(dok && d, "both vBuckets are flagged for saving")
+	}
+	assert(s.anyDirtyOffset, "the save flag is raised")
+	cover("par")
+}
